@@ -58,6 +58,9 @@ def run(chk: Check) -> None:
     # "... with its future raising it": the EXCEPTED entry resolves the process future whatever happened to it before (shared with C02)
     from .c02 import future_resolution
     future_resolution(chk)
+    # "... with exactly that exception": nothing transitions again (no pending kill / pause action runs) once the failure made the process terminal (shared with C01)
+    from .c01 import atom_terminal_guard
+    atom_terminal_guard(chk)
     # EXCEPTED must be reachable from every live state, else the failure itself is refused
     prog = chk.prog
     for lbl in common.LIVE:
